@@ -186,10 +186,11 @@ def systems(tier):
             ("builder-dp0-integers", C01System("builder-dp0-integers", 0, (0, 120, -10), tracers=False), 3, None),
             ("builder-relabelled-axes", C01System("builder-relabelled-axes", 4, exact, tracers=True, relabel={"X": "A", "Z": "W"}), 2, None),
             ("builder-bounded-with-rejections", C01System("builder-bounded-with-rejections", 5, exact, tracers=False, bounded=True), 3, None),
+            ("builder-dp12", C01System("builder-dp12", 12, (0, 0.123456789012, -2.000000123456), tracers=True), 2, None),
         ]
     return [
         ("builder-dp0-integers", C01System("builder-dp0-integers", 0, (0, 120, -10), tracers=True), 3, None),
-        ("builder-dp12", C01System("builder-dp12", 12, (0, 0.1, -2.675), tracers=False), 3, None),
+        ("builder-dp12", C01System("builder-dp12", 12, (0, 0.123456789012, -2.000000123456), tracers=True), 3, None),
         ("builder-bounded-with-rejections", C01System("builder-bounded-with-rejections", 5, exact, tracers=True, bounded=True), 3, None),
         ("builder-relabelled-axes", C01System("builder-relabelled-axes", 4, exact, tracers=True, relabel={"X": "A", "Z": "W"}), 3, None),
         ("builder-dp5-exact", C01System("builder-dp5-exact", 5, exact), 4, None),
